@@ -247,7 +247,7 @@ func printSpace(n *Node) string {
 	case Not:
 		return "not\t" + printSpace(n.L)
 	}
-	return "(" + printSpace(n.L) + ")" + opName(n.Kind) + "\n(" + printSpace(n.R) + ")"
+	return "((" + printSpace(n.L) + ")" + opName(n.Kind) + "\n(" + printSpace(n.R) + "))"
 }
 
 // ---- independent recursive-descent parser --------------------------------
